@@ -116,7 +116,7 @@ var argValue = map[string]string{"a": "a", "empty": "", "b_c": "b c", "lead": " 
 	// blank must not re-spell the other bytes)
 	"b_tab": "a b\tc", "b_nl": "a b\nc", "b_ctl": "a b\x01c"}
 
-var origins = []string{"literal", "var", "concat", "call", "capture"}
+var origins = []string{"literal", "var", "concat", "call", "capture", "concat-var"}
 
 // Arg is one argument of a stage.
 type Arg struct {
@@ -156,6 +156,11 @@ func exprOf(a Arg, id string, pre *[]string, needID *bool) string {
 	case "call":
 		*needID = true
 		return "id(" + tsQuote(a.Value) + ")"
+	case "concat-var":
+		// a literal joined with a variable, written directly as the argument
+		h := len(a.Value) / 2
+		*pre = append(*pre, fmt.Sprintf("%s := %s", id, tsQuote(a.Value[h:])))
+		return tsQuote(a.Value[:h]) + " + " + id
 	case "capture":
 		// the standard output of another command call, captured in the same statement
 		return "@\"./say\"(" + tsQuote(a.Value) + ")"
@@ -1203,7 +1208,7 @@ func Run() int {
 		r.Set("exhaustive", false)
 		r.Set("cap_hit", capReason)
 	}
-	r.Set("rule", "a case = one TypeShell program, transpiled by the real transpiler; BASH PHASE (one call chain of probe stages per program, run by the real bash in an empty environment): (A) every literal argument list up to the tier's length over the representative strings, (B) every origin vector over {literal,var,concat,call,capture} for lists of length 1-2 (length 3 over {literal,var} in thorough), (B') lists of length 2 (every origin vector) and 3 (origins literal/call/capture) as the SECOND command call of the program, after a captured call; (C) every list of length 4-5 over {a, empty, 'b c', *} all-literal and all-variable, each uncaptured and captured; (D) chains of 1..3 stages x argument pattern x last stage's own line with / without line end / absent (a program that prints nothing) x status of earlier stages {0,3} x status of the last stage (tier's set) x captured/uncaptured x top level / function body; (T) chains of 1..3 stages with one or two arguments per stage, every vector over {literal, traced} with at least two traced arguments - a traced argument is the result of a function that reports its evaluation, so the order in which the arguments of all stages are evaluated (source order, all before the chain runs) is part of the expected output; (E) the TARGET VECTOR of a capturing definition: each of the three targets named or the blank name _ (8 vectors) x form {:=, var, assignment to existing variables where _ can be typed} x top level / function body x chain length 1..3 x argument pattern x line end present/absent x first-stage status {0,3} x last status, and every passing captured single-argument cell under the 7 other vectors: captured output is never printed and the named targets hold output and status, whatever the targets are called; BATCH PHASE (the emitted .bat interpreted by verif/cmdmodel, the probe programs installed as its external-program hook; argument alphabet cmd-neutral: letters, digits, a blank inside a literal): (b-A) single-argument cells {a,B7} x 5 origins + 'b c' literal/var, every list of 2 (thorough 3) over the passing cells, (b-D) chains as in (D) with statuses {0,1,3,255} (thorough 0..255), (b-S) TWO and THREE call chains per run: every ordered pair and triple over a 10-site alphabet (output of one line / several / none, status zero / non-zero, captured / uncaptured, quoted and computed arguments, chain length 1-3), (b-L) one site executed 2 and 3 times in a loop and in a function, a function's site with every other site between its two calls, (b-T) the target vectors and forms of (E) on every captured alphabet site alone, repeated in a loop / function and between two other captured calls; distinct by coordinates; every case compares the argv record of every program start, stdout, the captured status, stderr (bash) and the script's exit status with the model of the probe")
+	r.Set("rule", "a case = one TypeShell program, transpiled by the real transpiler; BASH PHASE (one call chain of probe stages per program, run by the real bash in an empty environment): (A) every literal argument list up to the tier's length over the representative strings, (B) every origin vector over {literal,var,concat,call,capture,concat-var (a literal joined with a variable)} for lists of length 1-2 (length 3 over {literal,var} in thorough), (B') lists of length 2 (every origin vector) and 3 (origins literal/call/capture) as the SECOND command call of the program, after a captured call; (C) every list of length 4-5 over {a, empty, 'b c', *} all-literal and all-variable, each uncaptured and captured; (D) chains of 1..3 stages x argument pattern x last stage's own line with / without line end / absent (a program that prints nothing) x status of earlier stages {0,3} x status of the last stage (tier's set) x captured/uncaptured x top level / function body; (T) chains of 1..3 stages with one or two arguments per stage, every vector over {literal, traced} with at least two traced arguments - a traced argument is the result of a function that reports its evaluation, so the order in which the arguments of all stages are evaluated (source order, all before the chain runs) is part of the expected output; (E) the TARGET VECTOR of a capturing definition: each of the three targets named or the blank name _ (8 vectors) x form {:=, var, assignment to existing variables where _ can be typed} x top level / function body x chain length 1..3 x argument pattern x line end present/absent x first-stage status {0,3} x last status, and every passing captured single-argument cell under the 7 other vectors: captured output is never printed and the named targets hold output and status, whatever the targets are called; BATCH PHASE (the emitted .bat interpreted by verif/cmdmodel, the probe programs installed as its external-program hook; argument alphabet cmd-neutral: letters, digits, a blank inside a literal): (b-A) single-argument cells {a,B7} x 5 origins + 'b c' literal/var, every list of 2 (thorough 3) over the passing cells, (b-D) chains as in (D) with statuses {0,1,3,255} (thorough 0..255), (b-S) TWO and THREE call chains per run: every ordered pair and triple over a 10-site alphabet (output of one line / several / none, status zero / non-zero, captured / uncaptured, quoted and computed arguments, chain length 1-3), (b-L) one site executed 2 and 3 times in a loop and in a function, a function's site with every other site between its two calls, (b-T) the target vectors and forms of (E) on every captured alphabet site alone, repeated in a loop / function and between two other captured calls; distinct by coordinates; every case compares the argv record of every program start, stdout, the captured status, stderr (bash) and the script's exit status with the model of the probe")
 	r.Assumef("Batch target: there is no cmd.exe on this machine; the emitted script runs under verif/cmdmodel (rule 12: call PROGRAM, pipes between programs and the capture helper's for /f over cmd /V:ON /C are interpreted from the emitted text for cmd-neutral command lines; the probe programs are a function installed as the model's hook); every run the model refuses is counted by rule in batch_programs_the_cmd_model_refused_by_rule and never judged")
 	r.Assumef("whether a capturing definition with a given vector of named / blank targets is ACCEPTED is not a clause of this property: rejected programs of the target-vector families are counted, not reported")
 	r.Assumef("the sandbox directory contains the probes p1 p2 p3, a directory log and a one-letter file x, so that unquoted glob characters have something to match")
